@@ -22,6 +22,7 @@ type SpecEnv struct {
 	old   *State
 	iter  *State
 	pre   *State // state just before the current loop (for pre())
+	cur   *State // inside old()/pre()/iter(): the current state, used for locals that have no value in the older state
 	names map[string]Val
 	scope *types.Scope
 	pos   token.Pos
@@ -133,6 +134,12 @@ func (env *SpecEnv) lookup(name string) (Val, bool) {
 					return vc.loadElem(env.st, o.Type(), v.C[0], v.C[1]), true
 				}
 				return v, true
+			}
+			if env.cur != nil {
+				// a local that did not exist in the older state: old() only affects heap reads and parameters
+				if v, ok := env.cur.vars[o]; ok && !vc.addrTaken[o] {
+					return v, true
+				}
 			}
 			if o.Pkg() != nil && o.Parent() == o.Pkg().Scope() {
 				return vc.loadGlobal(o, env.st), true
@@ -446,6 +453,9 @@ func (env *SpecEnv) evalCall(x *ast.CallExpr) Val {
 		}
 		n := *env
 		n.st = env.old
+		if n.cur == nil {
+			n.cur = env.st
+		}
 		n.names = map[string]Val{}
 		for k, v := range env.names {
 			if strings.HasPrefix(k, "$old:") {
@@ -464,6 +474,17 @@ func (env *SpecEnv) evalCall(x *ast.CallExpr) Val {
 		}
 		n := *env
 		n.st = env.pre
+		r := n.eval(x.Args[0])
+		env.failed = env.failed || n.failed
+		return r
+	case "now":
+		// now(e): inside old()/pre()/iter(), evaluate e in the current state
+		if env.cur == nil {
+			return env.eval(x.Args[0])
+		}
+		n := *env
+		n.st = env.cur
+		n.cur = nil
 		r := n.eval(x.Args[0])
 		env.failed = env.failed || n.failed
 		return r
@@ -505,6 +526,17 @@ func (env *SpecEnv) evalCall(x *ast.CallExpr) Val {
 		env.failed = env.failed || n.failed
 		rng := And(Le(lo, k), Lt(k, hi))
 		if name == "forall" {
+			// distribute over conjunctions: forall k. R => (A && B)  ==  (forall k. R => A) && (forall k. R => B);
+			// the smaller quantified facts are far easier for e-matching (struct equalities have a dozen components)
+			if distributeForall && body.C[0].Op == "and" && len(body.C[0].Args) <= 32 {
+				var parts []*Term
+				for i, c := range body.C[0].Args {
+					vc.freshN++
+					ki := Var(fmt.Sprintf("%s!q%d_%d", id.Name, vc.freshN, i), SInt)
+					parts = append(parts, Forall([]*Term{ki}, Subst(Implies(rng, c), map[string]*Term{k.Name: ki})))
+				}
+				return boolVal(And(parts...))
+			}
 			return boolVal(Forall([]*Term{k}, Implies(rng, body.C[0])))
 		}
 		return boolVal(Exists([]*Term{k}, And(rng, body.C[0])))
@@ -618,3 +650,5 @@ func (env *SpecEnv) seqEq(a, b Val) *Term {
 	k := Var(fmt.Sprintf("k!q%d", vc.freshN), SInt)
 	return And(Eq(a.Len(), b.Len()), Forall([]*Term{k}, Implies(And(Le(Zero, k), Lt(k, a.Len())), Eq(rd(a, k), rd(b, k)))))
 }
+
+var distributeForall = false
